@@ -39,9 +39,9 @@ func runC06() *RunResult {
 		cfg := genCfg(true)
 		var p *PathSpec
 		if chance(50) {
-			p = filterHeavyPath(cfg.Funcs, trap)
+			p = filterHeavyPath(w.docs[rn(nd)].Val, cfg.Funcs, trap)
 		} else {
-			p = genPath(cfg.Funcs, trap, 4, 2)
+			p = genPathFor(w.docs[rn(nd)].Val, cfg.Funcs, trap, 4, 2)
 		}
 		pf := soloParse(p, cfg)
 		if chance(25) && pf.Fn != nil {
@@ -79,7 +79,7 @@ func runC06() *RunResult {
 				case 1:
 					p = genInternalPanicPath(cfg.Funcs)
 				default:
-					p = genPath(cfg.Funcs, trap, 4, 2)
+					p = genPathFor(w.docs[rn(nd)].Val, cfg.Funcs, trap, 4, 2)
 				}
 				slot := rn(2)
 				if slot == 0 && pub[ti] != nil {
@@ -104,11 +104,12 @@ func runC06() *RunResult {
 				t.ops = append(t.ops, o)
 			case 8:
 				cfg := genCfg(true)
-				p := genPath(cfg.Funcs, trap, 3, 1)
+				di := rn(nd)
+				p := genPathFor(w.docs[di].Val, cfg.Funcs, trap, 3, 1)
 				if chance(15) {
 					p = genFailPath()
 				}
-				o := &Op{Kind: opRetrieve, Path: p, Cfg: cfg, Doc: rn(nd), Faults: drawFaults(p.UsesFuncs)}
+				o := &Op{Kind: opRetrieve, Path: p, Cfg: cfg, Doc: di, Faults: drawFaults(p.UsesFuncs)}
 				pf := soloParse(p, cfg)
 				o.Expect, o.ExpectLog = soloEval(pf, deepCopy(w.docs[o.Doc%nd].Val), o.Faults, ref)
 				if pf.Fn == nil {
@@ -119,7 +120,7 @@ func runC06() *RunResult {
 			case 9:
 				// Parse hit by an injected panic: only what follows is judged
 				cfg := genCfg(true)
-				p := genPath(cfg.Funcs, trap, 4, 2)
+				p := genPathFor(w.docs[rn(nd)].Val, cfg.Funcs, trap, 4, 2)
 				t.ops = append(t.ops, &Op{Kind: opParseInject, Path: p, Cfg: cfg, Inject: 1 + rn(120)})
 			case 10:
 				if pub[ti] != nil {
